@@ -20,17 +20,27 @@ var (
 
 func init() {
 	regTimed("C08", mkC08, shC08)
+	regTimed("C08", mkC08, shC16)
 	regTimed("C09", mkC09, shC09)
 	regTimed("C16", mkC16, shC16)
 	regTimed("C13", mkC13t, shC13t)
 }
 
 func TestC08(t *testing.T) {
-	runProp(t, "C08", func(e *Env) func(*rapid.T) {
-		return TimedProp(e, mkC08, shC08, func(w *sim.World) bool {
-			return w.Stats["early_delivery"] > 0 && w.Stats["dup"] > 0 && w.TimedRes != nil && w.TimedRes.Done
-		})
-	})
+	SkipUnlessSelected(t, "C08")
+	e := GetEnv("C08")
+	defer e.Flush()
+	rapid.Check(t, TimedProp(e, mkC08, shC08, func(w *sim.World) bool {
+		return w.Stats["early_delivery"] > 0 && w.Stats["dup"] > 0 && w.TimedRes != nil && w.TimedRes.Done
+	}))
+	if t.Failed() {
+		return
+	}
+	// ... and on an idle chain with the maximum-block-time extension: transactions appear rarely and reach the pools
+	// one by one, so proposals, notifications and requested transactions arrive in every order (the worlds of C16)
+	rapid.Check(t, TimedProp(e, mkC08, shC16, func(w *sim.World) bool {
+		return w.Stats["notified_backup_holds_proposal"]+w.Stats["tx_arrival_wanted"] > 0 && w.TimedRes != nil && w.TimedRes.Done
+	}))
 }
 
 func TestC09(t *testing.T) {
